@@ -309,7 +309,12 @@ func runC18(c *ctx) error {
 			descs = []any{}
 		}
 		b, _ := json.Marshal(set)
+		// half of the sets reuse one path (a key file rewritten in place, as on rotation): what is loaded follows
+		// the file as it is now
 		path := filepath.Join(dir, fmt.Sprintf("set%d.json", si))
+		if si%2 == 1 {
+			path = filepath.Join(dir, "rotating.json")
+		}
 		os.WriteFile(path, b, 0o600)
 		for _, req := range requested {
 			var got string
